@@ -45,7 +45,7 @@ class Bool:
         return (not v) if self.negate else v
 
 
-def check_table(rows, roles: dict, expected, outcome, *, constraint=None, ignore_atoms=()):
+def check_table(rows, roles: dict, expected, outcome, *, constraint=None, ignore_atoms=(), independent_extras=False):
     """
     rows      : decision tree from absint.explore
     roles     : name -> Sign | Bool
@@ -53,6 +53,9 @@ def check_table(rows, roles: dict, expected, outcome, *, constraint=None, ignore
                 special value SKIP to leave a combination unconstrained
     outcome   : fn(row) -> outcome of the code on that row
     constraint: optional fn(role_values) -> bool; False = combination outside the table
+    independent_extras: the caller states that quantities outside the role map are inputs of their own (any value
+                can occur together with the table row); an outcome that depends on one of them and differs from the
+                expected outcome for some value is then a mismatch instead of an unrecognised shape
     Returns (mismatches, n_cases, details).  Raises Unrecognised if the tree depends on
     atoms outside the role map.
     """
@@ -88,6 +91,18 @@ def check_table(rows, roles: dict, expected, outcome, *, constraint=None, ignore
             continue
         if len(outs) > 1:
             extra = sorted({k for r in cands for k in r.valuation if k not in known and k not in ignore_atoms})
+            if exp not in outs:
+                # whatever the other quantities are, the code never does what the table demands
+                mismatches.append({"inputs": _show_rv(rv), "code": outs, "expected": exp})
+                continue
+            if not extra:
+                # the outcomes differ only with quantities the caller declared irrelevant for the expected outcome:
+                # some feasible case of this table row is decided differently
+                mismatches.append({"inputs": _show_rv(rv), "code": outs, "expected": exp, "differs_with": sorted({k for r in cands for k in r.valuation if k in ignore_atoms})[:4]})
+                continue
+            if independent_extras:
+                mismatches.append({"inputs": _show_rv(rv), "code": outs, "expected": exp, "depends_on": extra[:3]})
+                continue
             raise Unrecognised(f"outcome depends on atoms outside the role map {extra} for table row {rv}: {outs}")
         details.append((rv, outs[0], exp))
         if outs[0] != exp:
